@@ -6,7 +6,7 @@
 (* messages the service must send and the store it must hold.               *)
 EXTENDS Sync, Json, SequencesExt
 
-CONSTANTS H, F, ForkAt, CpHs, MaxEnv, Emit, MaxConnects, MaxRestarts, Scenario
+CONSTANTS H, F, ForkAt, CpHs, MaxEnv, Emit, MaxConnects, MaxRestarts, MaxAsks, MaxRaw, Scenario
 
 ParV == [b \in 1 .. (H + F) |-> IF b <= H THEN b - 1 ELSE IF b = H + 1 THEN ForkAt ELSE b - 1]
 CpsV == {h \in CpHs : h <= H}        \* checkpoints are honest-chain blocks (block id = height on the honest chain)
@@ -29,6 +29,12 @@ DeterministicChoice == \A r \in {rows} : Cardinality(Candidates(pk, rows)) <= 1 
 
 NConn == Cardinality({k \in 1 .. Len(hist) : hist[k].kind = "env" /\ hist[k].op = "connect"})
 NRst  == Cardinality({k \in 1 .. Len(hist) : hist[k].kind = "env" /\ hist[k].op = "restart"})
+NRaw  == Cardinality({k \in 1 .. Len(hist) : hist[k].kind = "env" /\ hist[k].op = "reply" /\ "raw" \in DOMAIN hist[k]})
+NAsk  == Cardinality({k \in 1 .. Len(hist) : hist[k].kind = "env" /\ hist[k].op = "ask"})
+SeqSet(q) == {q[k] : k \in 1 .. Len(q)}
+\* what a node asks with: from genesis, from its own tip, from its tip and a block the service cannot know
+AskLocs(p) == {<<0>>, <<nd[p].best, 0>>, <<NB + 7, nd[p].best>>}
+AskStops(p) == {-1} \cup ({nd[p].best} \ {0})     \* a stop at genesis is the listed finding D9 of C13, not asked here
 LogEnv(rec) == hist' = Append(hist, rec @@ [kind |-> "env"]) /\ nenv' = nenv + 1 /\ UNCHANGED <<dropped, knownOnly>>
 Pending == {q \in Peers : nd[q].conn /\ nq[q] # <<>>}
 \* phase 2: after the MaxEnv environment events every connected node keeps answering (lowest id first) until nothing is asked
@@ -44,11 +50,16 @@ MEnv ==
           /\ \/ Connect(p, b) /\ LogEnv([op |-> "connect", p |-> p, b |-> b, banned |-> FALSE])
              \/ ConnectBanned(p, b) /\ LogEnv([op |-> "connect", p |-> p, b |-> b, banned |-> TRUE])
      \/ \E p \in Peers : NodeReply(p) /\ LogEnv([op |-> "reply", p |-> p, ids |-> ReplyIds(p, Head(nq[p]))])
+     \/ \E p \in Peers : /\ NRaw < MaxRaw /\ nq[p] # <<>> /\ ReplyIdsRaw(p, Head(nq[p])) # ReplyIds(p, Head(nq[p]))
+                          /\ NodeReplyRaw(p) /\ LogEnv([op |-> "reply", p |-> p, ids |-> ReplyIdsRaw(p, Head(nq[p])), raw |-> TRUE])
      \/ \E p \in Peers : NodeClose(p) /\ LogEnv([op |-> "close", p |-> p])
      \/ \E p \in Peers, b \in 1 .. NB, how \in {"inv", "headers"} :
           /\ Par[b] = nd[p].best        \* the node's chain grows by one block
           /\ NodeAnnounce(p, b, how) /\ LogEnv([op |-> "announce", p |-> p, b |-> b, how |-> how])
      \/ (NRst < MaxRestarts /\ RestartSrv /\ LogEnv([op |-> "restart"]))
+     \/ \E p \in Peers : \E l \in AskLocs(p), sp \in AskStops(p) :
+          /\ NAsk < MaxAsks /\ NodeAsk(p)
+          /\ LogEnv([op |-> "ask", p |-> p, loc |-> l, stop |-> sp, served |-> Served(SeqSet(l), sp)])
 InvDropped == LET m == Head(mq) IN m.t = "inv" /\ pk[m.p].known /\ m.p # syncPeer /\ ~MgrCurrent
 \* handleHeadersMsg: "If all the headers received where rejected or already in the database, don't request more headers
 \* from that peer" - finalHash stays nil whenever the batch held no header that ended on the longest chain.  This is the
@@ -63,13 +74,14 @@ MMgr == MgrStep /\ hist' = Append(hist, [kind |-> "mgr"] @@ Obs) /\ UNCHANGED ne
 MSyNext == MMgr \/ MEnv \/ MDrain
 MSySpec == MSyInit /\ [][MSyNext]_msyvars /\ WF_msyvars(MMgr)
 \* everything that guards an action must be in the view, or TLC merges states with different futures
-SyView == <<syvars, nenv, NConn, NRst, dropped, knownOnly>>
+SyView == <<syvars, nenv, NConn, NRst, NAsk, NRaw, dropped, knownOnly>>
 
 \* random choice among several candidates: only single-candidate situations are generated for replay
 ChoiceConstraint == Cardinality(Candidates(pk, rows)) <= 1 \/ syncPeer # 0 \/ mq = <<>>
 
 Terminal == mq = <<>> /\ nenv >= MaxEnv /\ Pending = {}
-Scn == [par |-> [b \in 1 .. NB |-> ParV[b]], cps |-> SetToSeq(CpsV), cpEnabled |-> CpEnabled, forbid |-> SetToSeq(Forbid), cap |-> Cap, name |-> Scenario]
+Scn == [par |-> [b \in 1 .. NB |-> ParV[b]], cps |-> SetToSeq(CpsV), cpEnabled |-> CpEnabled, forbid |-> SetToSeq(Forbid), cap |-> Cap, name |-> Scenario,
+        findings |-> SetToSeq(Findings)]
 StNow == [k \in 1 .. (NB + 1) |-> IF (k - 1) \in DOMAIN rows THEN rows[k - 1].st ELSE "-"]
 OffNow == {nd[p].best : p \in {q \in Peers : nd[q].conn}}
 BestNow == IF OffNow = {} THEN -1 ELSE CHOOSE b \in OffNow : \A c \in OffNow : HOf(c) <= HOf(b)
